@@ -1506,8 +1506,11 @@ class Engine:
                 continue
             if isinstance(s, ast.If):
                 c = self.truthy(st, self.ev(s.test, st))
+                saved = dict(st.env)
                 a = self._spec_stmts(st, s.body + body[i + 1:])
+                st.env = dict(saved)
                 b = self._spec_stmts(st, s.orelse + body[i + 1:])
+                st.env = saved
                 return self.ite_values(st, [(c, a), (z3.BoolVal(True), b)])
             raise Unsupported(f"statement {type(s).__name__} in spec function", s)
         raise Unsupported("spec function without return")
@@ -1680,7 +1683,9 @@ class Engine:
             st.assume(na >= st.alloc)
             st.alloc = na
         # exceptional outcomes
-        if c.raises:
+        if c.raises and c.callers_assume_no_raise:
+            self.used_assumptions.add(f"assumed at call sites: {fn.qualname} raises none of {sorted(c.raises)} ({c.note})")
+        elif c.raises:
             names = list(c.raises.keys())
             feas = []
             for en in names:
@@ -1935,6 +1940,10 @@ class Engine:
                 cc = self.reg.get(fk) if fk else None
                 if cc is not None and t.id in cc.locals and cc.locals[t.id].kind == "list":
                     v.elem = cc.locals[t.id].args[0]
+                    if not st.cl[v.id]:
+                        # a declared local list starts its life in the heap (it will grow symbolically)
+                        st.env[t.id] = self.materialize(st, v, v.elem)
+                        return
             st.env[t.id] = v
             return
         if isinstance(t, (ast.Tuple, ast.List)):
